@@ -19,9 +19,9 @@ DEFAULTS = {'BOOLEAN': (bool, False), 'INTEGER': (int, 0), 'REAL': (float, 0.0),
 
 
 def run(ctx):
-    defaults(ctx)
-    order(ctx)
-    generators(ctx)
+    ctx.guard(defaults, ctx)
+    ctx.guard(order, ctx)
+    ctx.guard(generators, ctx)
     ctx.assume('a random 128-bit uuid4 is never 0 and never repeats (probabilistic; not decided)')
     ctx.assume('user supplied generators honour the IdGenerator contract')
     return ('Abstract execution of MetaClass.default_value for every type name (in declared and in other letter '
@@ -61,7 +61,19 @@ def defaults(ctx):
             return spelled == lit.value
         return getattr(s['type'], n)() == lit.value
 
-    atoms = [('_A == _B', cmp_lit),
+    def in_lits(e, s, tr):
+        lits = e['_L']
+        if not isinstance(lits, (ast.Tuple, ast.List, ast.Set)):
+            return None
+        for x in lits.elts:
+            r_ = cmp_lit({'_A': e['_A'], '_B': x}, s, tr)
+            if r_ is None:
+                return None
+            if r_:
+                return True
+        return False
+
+    atoms = [('_A == _B', cmp_lit), ('_A in _L', in_lits),
              ('self.metamodel', lambda e, s, tr: s['has_mm']),
              ('self.metamodel is not None', lambda e, s, tr: s['has_mm']),
              ('self.metamodel is None', lambda e, s, tr: not s['has_mm'])]
@@ -120,11 +132,19 @@ def order(ctx):
     loops = [st for st in body if isinstance(st, ast.For)]
     phase = {}
     for idx, lp in enumerate(loops):
-        if pm.match('self.attributes', lp.iter) is not None and any(
+        if 'self.attributes' in src(lp.iter) and any(
                 isinstance(n, ast.Call) and call_attr(n) == 'default_value' for n in ast.walk(lp)):
             phase.setdefault('defaults', (idx, lp))
+            r.check(pm.match('self.attributes', lp.iter) is not None, 'defaults are computed for every declared attribute', lp, construct=Q,
+                    key='defaults-range ' + src(lp.iter),
+                    msg='the defaults phase ranges over `%s`, not over all of self.attributes: attributes outside that range get no typed '
+                        'default (and an unknown type is not rejected there)' % src(lp.iter))
         elif pm.match('zip(self.attributes, args)', lp.iter) is not None:
             phase.setdefault('positional', (idx, lp))
+        elif pm.match('zip(_X, args)', lp.iter) is not None or pm.match('zip(args, _X)', lp.iter) is not None:
+            r.violation('positional arguments are paired with `%s`, not with the attributes in declared order (zip(self.attributes, args))'
+                        % src(lp.iter), lp, construct=Q, key='positional-pairing ' + src(lp.iter))
+            return
         elif pm.match('kwargs.items()', lp.iter) is not None:
             phase.setdefault('keywords', (idx, lp))
     for need in ('defaults', 'positional', 'keywords'):
